@@ -80,86 +80,104 @@ func (e *Engine) Solve(dir string, timeoutS int, all bool, par chan struct{}) []
 			batch = append(batch, i)
 		}
 	}
-	run := func(name string, asserts []*smt.Term, vals []*smt.Term) smt.Result {
-		script := e.C.Script(asserts, e.Extra, vals)
-		par <- struct{}{}
-		defer func() { <-par }()
-		return smt.Solve(script, dir, name, timeoutS, all)
-	}
 	runScript := func(name, script string) smt.Result {
 		par <- struct{}{}
 		defer func() { <-par }()
 		return smt.Solve(script, dir, name, timeoutS, all)
 	}
-	batched := false
-	if len(batch) > 1 {
-		var conds []*smt.Term
-		for _, i := range batch {
-			conds = append(conds, e.Obls[i].Cond)
-		}
-		asserts := append(append([]*smt.Term{}, e.Assumes...), axioms...)
-		asserts = append(asserts, e.C.Not(e.C.And(conds...)))
-		start := time.Now()
-		r := run(e.namePrefix+"__batch", asserts, nil)
-		if r.Status == "unsat" {
-			batched = true
-			for _, i := range batch {
-				results[i].Status = "discharged"
-				results[i].How = "batch"
-				results[i].Solver = r.Solver
-				results[i].Seconds = time.Since(start).Seconds() / float64(len(batch))
-			}
-		}
-	}
 	var wg sync.WaitGroup
-	for _, i := range pending {
+	var mu sync.Mutex
+	single := func(i int) {
 		o := e.Obls[i]
-		if batched && !o.ExpectSat {
-			continue
-		}
+		mu.Lock()
 		asserts := append(append([]*smt.Term{}, e.Assumes[:o.NAssume]...), axioms...)
 		var vals []*smt.Term
 		asserts = append(asserts, e.C.Not(o.Cond))
 		if !o.ExpectSat {
 			for _, in := range o.Inputs {
-				if len(in.T.Args) == 0 && in.T.Decl {
-					vals = append(vals, in.T)
-				}
+				vals = append(vals, in.T)
 			}
 		}
 		script := e.C.Script(asserts, e.Extra, vals)
-		wg.Add(1)
-		go func(i int, o *Obligation, script string) {
-			defer wg.Done()
-			r := runScript(o.Name, script)
-			res := &results[i]
-			res.Solver, res.Seconds, res.How = r.Solver, r.Seconds, "single"
-			switch {
-			case o.ExpectSat && r.Status == "sat":
-				res.Status = "discharged"
-			case o.ExpectSat && r.Status == "unsat":
-				res.Status = "vacuous"
-				res.Output = "cover query is unsatisfiable: the assumptions exclude every execution"
-			case o.ExpectSat:
-				// undecided cover queries do not fail a check (they guard against vacuity only)
-				res.Status = "discharged"
-				res.How = "cover-undecided:" + r.Status
-			case r.Status == "unsat":
-				res.Status = "discharged"
-			case r.Status == "sat":
-				res.Status = "failed"
-				res.Model = map[string]string{}
-				for _, in := range o.Inputs {
-					if v, ok := r.Model[in.T.Op]; ok {
-						res.Model[in.Name] = v
-					}
+		mu.Unlock()
+		r := runScript(o.Name, script)
+		res := &results[i]
+		res.Solver, res.Seconds, res.How = r.Solver, r.Seconds, "single"
+		switch {
+		case o.ExpectSat && r.Status == "sat":
+			res.Status = "discharged"
+		case o.ExpectSat && r.Status == "unsat":
+			res.Status = "vacuous"
+			res.Output = "cover query is unsatisfiable: the assumptions exclude every execution"
+		case o.ExpectSat:
+			// undecided cover queries do not fail a check (they guard against vacuity only)
+			res.Status = "discharged"
+			res.How = "cover-undecided:" + r.Status
+		case r.Status == "unsat":
+			res.Status = "discharged"
+		case r.Status == "sat":
+			res.Status = "failed"
+			res.Model = map[string]string{}
+			for k, in := range o.Inputs {
+				if k < len(r.Values) {
+					res.Model[in.Name] = r.Values[k]
 				}
-				res.Output = trim(r.Output, 2000)
-			default:
-				res.Status = "undecided"
-				res.Output = fmt.Sprintf("%s: %s", r.Status, trim(r.Output, 500))
 			}
-		}(i, o, script)
+			res.Output = trim(r.Output, 2000)
+		default:
+			res.Status = "undecided"
+			res.Output = fmt.Sprintf("%s: %s", r.Status, trim(r.Output, 500))
+		}
+	}
+	// bisect: a group whose conjunction is valid is discharged by one query; otherwise split
+	var bisect func(group []int)
+	bisect = func(group []int) {
+		defer wg.Done()
+		if len(group) == 1 {
+			single(group[0])
+			return
+		}
+		mu.Lock()
+		var conds []*smt.Term
+		maxA := 0
+		for _, i := range group {
+			conds = append(conds, e.Obls[i].Cond)
+			if e.Obls[i].NAssume > maxA {
+				maxA = e.Obls[i].NAssume
+			}
+		}
+		asserts := append(append([]*smt.Term{}, e.Assumes[:maxA]...), axioms...)
+		asserts = append(asserts, e.C.Not(e.C.And(conds...)))
+		script := e.C.Script(asserts, e.Extra, nil)
+		mu.Unlock()
+		t0 := time.Now()
+		r := runScript(fmt.Sprintf("%s__batch%d_%d", e.namePrefix, group[0], len(group)), script)
+		if r.Status == "unsat" {
+			for _, i := range group {
+				results[i].Status = "discharged"
+				results[i].How = "batch"
+				results[i].Solver = r.Solver
+				results[i].Seconds = time.Since(t0).Seconds() / float64(len(group))
+			}
+			return
+		}
+		h := len(group) / 2
+		wg.Add(2)
+		go bisect(group[:h])
+		go bisect(group[h:])
+	}
+	if len(batch) > 0 {
+		wg.Add(1)
+		go bisect(batch)
+	}
+	for _, i := range pending {
+		if e.Obls[i].ExpectSat {
+			wg.Add(1)
+			go func(i int) {
+				defer wg.Done()
+				single(i)
+			}(i)
+		}
 	}
 	wg.Wait()
 	return results
